@@ -15,8 +15,11 @@ class C13(flow.Spec):
             "found at start, whether the subscription was restored (same id) or its directory removed, restored rows vs the "
             "query on the database, change ids before/after. The Coq life-cycle model must predict state, restored and soundness; "
             "property checks on the observations: restored => same id, rows == query, change ids continue by one; not "
-            "restored => directory gone. non-trivial = distinct (history, stop mode) pairs")
-    assumptions = ["no transaction commits between the removal of a subscription's handle and its cancellation, nor after drop_handles during shutdown, nor between a restart and the restoration of the subscriptions (env_ok_b in the model)",
+            "restored => directory gone. Plus `inflight n g`: the real change handler loop is applying a remote version of n rows "
+            "when the node shuts down gracefully g ms after the batch was spawned (the sequence of command/agent.rs: tripwire, "
+            "the handler's handle awaited, drop_handles, pending handles awaited): what the batch committed must be in the "
+            "restored subscription (a genuine defect found here was fixed: 5d97e61). non-trivial = distinct (history, stop mode) pairs")
+    assumptions = ["no transaction commits between the removal of a subscription's handle and its cancellation (the known finding), nor after drop_handles during shutdown (exercised for the change handler's in-flight batches by `inflight`; API requests and sync sessions in flight at shutdown are not driven), nor between a restart and the restoration of the subscriptions (env_ok_b in the model)",
                    "kill = the files as they are between two commits of the subscription database (process crash; power loss / fsync behaviour is outside)",
                    "what a batch does to the matview is C11's subject"]
 
@@ -40,6 +43,12 @@ class C13(flow.Spec):
                     tags.add("pending-at-stop")
                 phases.append("%d %s %s" % (len(ops), " ".join(ops), stop))
             out.append(("restart 2 %s" % " ".join(phases), tags))
+        # a remote batch being applied by the real change handler when the node shuts down gracefully
+        combos = [(300, 0), (100, 0), (1000, 0), (300, 5), (3000, 10), (40000, 400)]
+        if tier != "quick":
+            combos += [(n, g) for n in (50, 200, 500, 2000, 10000) for g in (0, 2, 20, 100)]
+        for n, g in combos:
+            out.append(("inflight %d %d" % (n, g), {"apply-in-flight-at-shutdown"}))
         return out
 
     def phases(self, case):
@@ -58,6 +67,9 @@ class C13(flow.Spec):
         return out
 
     def model_lines(self, case, impl_obs):
+        if case.startswith("inflight"):
+            # created, initial query, a write whose candidates arrive while draining or before, clean stop
+            return ["sublife 8 CR IN TR W UN DD | ST"]
         toks = ["CR", "IN"]
         alive = True
         for ops, stop in self.phases(case):
@@ -85,6 +97,10 @@ class C13(flow.Spec):
         return res
 
     def agree(self, case, impl_obs, model_obs):
+        if case.startswith("inflight"):
+            f = dict(re.findall(r"(\w+)=(\S*)", impl_obs or ""))
+            m = dict(re.findall(r"(\w+)=(\S*)", model_obs.split(" # ")[0]))
+            return f.get("meta") == m.get("meta") and f.get("restored") == m.get("restored")
         p = self.parse(impl_obs)
         if p is None:
             return False
@@ -110,6 +126,18 @@ class C13(flow.Spec):
 
     def failures(self, case, impl_obs):
         """[(phase index or 'final', reason)] in order"""
+        if case.startswith("inflight"):
+            f = dict(re.findall(r"(\w+)=(\S*)", impl_obs or ""))
+            if "meta" not in f:
+                return [(0, "crash")]
+            if f.get("meta") == "completed":
+                if f.get("restored") != "1":
+                    return [(0, "not-restored")]
+                if f.get("rows") != f.get("db"):
+                    return [(0, "stale")]     # restored, but the batch that committed during shutdown is missing
+            elif f.get("restored") != "0":
+                return [(0, "unclean-restored")]
+            return []
         p = self.parse(impl_obs)
         if p is None:
             return [(0, "crash")]
@@ -148,6 +176,8 @@ class C13(flow.Spec):
         return False if self.failures(case, impl_obs) else None
 
     def classify(self, case, impl_obs):
+        if case.startswith("inflight"):
+            return None
         fails = self.failures(case, impl_obs)
         if not fails:
             return None
